@@ -284,6 +284,38 @@ fn mutations(t: &Tlv) -> Vec<(String, Vec<u8>)> {
             }
         }
     }
+    // LDAPResult-shaped operations with extra trailing elements: up to eight well-formed ones
+    // ([3] referral, [10] name, [11] value, [7] credentials in turn) and then one malformed
+    // (a [10] that is not UTF-8, a primitive [3], a constructed [11]); also only well-formed ones
+    if let Some(opnode) = paths.iter().find(|p| p.as_slice() == [1]) {
+        if let Body::Cons(kids) = &get(t, opnode).body {
+            if kids.len() >= 3 && kids[0].tag == 10 && kids[0].class == 0 {
+                let fillers = [
+                    Tlv::cons(ber::CTX, 3, vec![Tlv::octets(b"ldap://f".to_vec())]),
+                    Tlv::prim(ber::CTX, 10, b"1.2.3".to_vec()),
+                    Tlv::prim(ber::CTX, 11, b"v".to_vec()),
+                    Tlv::prim(ber::CTX, 7, b"c".to_vec()),
+                ];
+                let bads = [Tlv::prim(ber::CTX, 10, vec![0xff, 0xfe]), Tlv::prim(ber::CTX, 3, vec![]), Tlv::cons(ber::CTX, 11, vec![Tlv::octets(vec![1])]), Tlv::cons(ber::CTX, 3, vec![Tlv::octets(vec![0xc3])])];
+                for nfill in 0..=8usize {
+                    let mut base: Vec<Tlv> = kids[..3].to_vec();
+                    for k in 0..nfill {
+                        base.push(fillers[k % fillers.len()].clone());
+                    }
+                    let mut m = t.clone();
+                    get_mut(&mut m, opnode).body = Body::Cons(base.clone());
+                    out.push((format!("result-tail({} well-formed)@[1]", nfill), ber::encode(&m)));
+                    for (bi, bad) in bads.iter().enumerate() {
+                        let mut kids2 = base.clone();
+                        kids2.push(bad.clone());
+                        let mut m = t.clone();
+                        get_mut(&mut m, opnode).body = Body::Cons(kids2);
+                        out.push((format!("result-tail({} well-formed, malformed #{})@[1]", nfill, bi), ber::encode(&m)));
+                    }
+                }
+            }
+        }
+    }
     // the message ID rewritten to values that are not a message ID (beyond 2^31-1, negative):
     // whatever happens to the frame, it is not a response to the operation pending on the original ID
     if let Some(idnode) = paths.iter().find(|p| p.as_slice() == [0]) {
@@ -528,7 +560,7 @@ pub fn run(tier: Tier) -> i32 {
         let ident = label.contains(":ident(");
         let result_msg = label.starts_with("done/") || label.starts_with("bind/noctl");
         let unmatched = (i as usize) >= n_matched;
-        let run_driver = if label.contains("foreign-id(") {
+        let run_driver = if label.contains("foreign-id(") || label.contains("result-tail(") {
             true
         } else if unmatched {
             tier == Tier::Thorough || i % 3 == 0 || label.contains("deleted@") || label.contains("emptied@") || label.contains("len=")
@@ -548,6 +580,11 @@ pub fn run(tier: Tier) -> i32 {
             ("id0-with-controls".into(), Msg { id: 0, op: Op::ExtResp(Res::new(0, "", ""), None, None), controls: Some(vec![Ctl { oid: b"1.2".to_vec(), crit: None, val: None }]) }.encode()),
             ("unused-id-777".into(), Msg { id: 777, op: Op::BindResp(Res::new(0, "", "other"), None), controls: None }.encode()),
             ("entry-for-unused-id".into(), Msg { id: 778, op: Op::SearchEntry { dn: b"cn=z".to_vec(), attrs: vec![] }, controls: None }.encode()),
+            // frames beyond the read buffer's initial size, right in front of the genuine response
+            ("unused-id-9000-octets".into(), Msg { id: 779, op: Op::BindResp(Res::new(0, "", &"d".repeat(9000)), None), controls: None }.encode()),
+            ("unused-id-20000-octets".into(), Msg { id: 780, op: Op::BindResp(Res::new(0, "", &"d".repeat(20000)), None), controls: None }.encode()),
+            ("unused-id-70000-octets".into(), Msg { id: 781, op: Op::SearchEntry { dn: b"cn=z".to_vec(), attrs: vec![(b"jpegPhoto".to_vec(), vec![vec![0x42; 70000]])] }, controls: None }.encode()),
+            ("id0-5000-octets".into(), Msg { id: 0, op: Op::ExtResp(Res::new(0, "", &"n".repeat(5000)), Some(b"1.2.3".to_vec()), None), controls: None }.encode()),
         ];
         for (name, first) in &firsts {
             for pending_search in [false, true] {
